@@ -135,8 +135,12 @@ def op_cp_save(state: State, a: Dict[str, Any], env: simenv.SimEnv) -> Any:
     out_dir = a["out_dir"]
     if a.get("abs", True):
         out_dir = _abs(state, out_dir)
+    # what is being saved, observed just before the call (a failed recomputation may have left the
+    # object in a state the driver's model does not know about)
+    graph_obs = observe_graph(cp)
     z = cp.save(out_dir)
-    return {"zip": _rel(state, os.path.abspath(z)), "returned": _rel(state, z) if os.path.isabs(z) else z}
+    return {"zip": _rel(state, os.path.abspath(z)), "returned": _rel(state, z) if os.path.isabs(z) else z,
+            "graph_obs": graph_obs}
 
 
 @op("cp_restore")
